@@ -217,3 +217,31 @@ Fixpoint py_list_remove {A} (eqb : A -> A -> bool) (l : list A) (x : A) : result
 (* a, b = xs for a list xs: ValueError unless xs has exactly two items *)
 Definition py_unpack2 {A} (xs : list A) : result (A * A) :=
   match xs with [a; b] => Ok (a, b) | _ => Err "ValueError" end.
+
+(* ------------------------------------------------------------------------------------------------ binary rendering (idiom format-bin-zfill) *)
+(* format(k, "b").zfill(n) for ints k and n: the binary digits of |k|, most significant first ("0" for k = 0), behind a
+   '-' when k < 0; the digits are left-padded with '0' (BETWEEN the sign and the digits, str.zfill keeps a leading sign
+   first) until the whole text, sign included, has at least n characters.  No padding for n <= len (in particular n <= 0);
+   k >= 2^n gives more than n characters.  CPython 3.12: format(5,"b").zfill(5) = "00101", format(-5,"b").zfill(6) =
+   "-00101", format(-5,"b").zfill(4) = "-101", format(0,"b").zfill(3) = "000", format(8,"b").zfill(3) = "1000". *)
+Fixpoint py_bin_digits_pos (p : positive) : string :=
+  match p with
+  | xH => "1"%string
+  | xO q => (py_bin_digits_pos q ++ "0")%string
+  | xI q => (py_bin_digits_pos q ++ "1")%string
+  end.
+(* format(abs(k), "b") *)
+Definition py_bin_digits (k : Z) : string :=
+  match k with Z0 => "0"%string | Zpos p => py_bin_digits_pos p | Zneg p => py_bin_digits_pos p end.
+Fixpoint py_zeros (n : nat) : string := match n with O => EmptyString | S m => String "0" (py_zeros m) end.
+Definition py_format_bin_zfill (k n : Z) : string :=
+  let sign := if k <? 0 then "-"%string else EmptyString in
+  let digits := py_bin_digits k in
+  (sign ++ py_zeros (Z.to_nat (n - py_str_len sign - py_str_len digits)) ++ digits)%string.
+(* format(k, f"0{n}b"): the format spec is "0" + str(n) + "b".  For n >= 0 that is zero-padding to width n, sign-aware: the
+   SAME text as format(k, "b").zfill(n), for every int k (checked against CPython for k in -40..70, +-(2^70+5), +-2^64 and
+   n in 0..79).  For n < 0 the spec reads "0-3b", which CPython rejects: ValueError (Invalid format specifier) — the two
+   Python forms differ exactly there.  (A width of more than ~18 decimal digits is a ValueError / MemoryError in CPython:
+   not modelled, like the unboundedness of int.) *)
+Definition py_format_bin_fspec (k n : Z) : result string :=
+  if n <? 0 then Err "ValueError" else Ok (py_format_bin_zfill k n).
